@@ -1,0 +1,18 @@
+//go:build verif
+
+package importcache
+
+import "sync"
+
+// SimAfterCondWake, when set by a deterministic simulator, is called by a
+// waiter right after it wakes from the cache's condition variable, holding mu.
+// The simulator may release mu, park the goroutine until its scheduler lets it
+// proceed, and re-acquire mu: legal for any condition-variable user, since the
+// waiting loop re-checks its predicate.
+var SimAfterCondWake func(mu *sync.Mutex)
+
+func afterCondWake(mu *sync.Mutex) {
+	if f := SimAfterCondWake; f != nil {
+		f(mu)
+	}
+}
